@@ -22,6 +22,11 @@ CHECKS = {
          'Every scenario of the product kind {sent, received, invoice payer, invoice issuer, late-locked, self-send sent/received side, sent spending an unconfirmed output (min_conf 0)} x change count {0,1,2} x stage {early, mid, finalized-not-posted} x other pending transactions {0,1,3} x addressing {log id, slate id} (quick: a stated sub-product) plus five refusal cases is executed on a real chain and real LMDB wallets; snapshots before creation, before cancel and after cancel are compared against the exact diff the statement allows (outputs, log entries, contexts, balances at min_conf 0/1/10, counterparty untouched).',
          'Scenario space is a fixed finite product; a refused cancel of a cancellable transaction is an outcome, not a violation.',
          'DESIGN.md §3 C05'),
+ 'C17': ('model_checking',
+         'exhaustive parameter sweep of the real protocol steps and refresh on real worlds',
+         'Every combination of protocol step {receive_tx, process_invoice_tx, owner finalize_tx, foreign finalize_tx} x cutoff class {0, 1, h-1, h, h+1, u64::MAX} relative to the height the wallet has observed x staleness of that observation x other pending transactions, and every combination of ttl_blocks {none,1,2,3,50} x blocks mined 0..4 x side {sender, recipient} x other pending transactions for refresh, is executed; oracle: refused iff cutoff != 0 and observed height >= cutoff, refusals change nothing, unexpired slates complete, refresh cancels exactly the expired pending transactions and releases their inputs.',
+         'Cutoff is set directly on the slate handed to the step (a counterparty controls it).',
+         'DESIGN.md §3 C17'),
  'C19': ('model_checking',
          'exhaustive small-scope input enumeration of the real query path against a reference filter',
          'Every query of a stated finite space (all single fields, all pairs, full flag product, sort x order x limit x every single filter; thorough: all triples and pairs x sort/limit) is executed through owner::retrieve_txs on a real LMDB wallet holding two discriminating 11-entry, 3-account logs and compared with a reference filter written from the field documentation (MUST <= result <= MAY, order, limit-as-prefix). Exhaustive within that scope; nothing sampled.',
